@@ -21,6 +21,7 @@ EXC_PARENT = {
     'AttributeError': 'Exception', 'TypeError': 'Exception', 'SkipTest': 'Exception',
     'AssertionError': 'Exception', 'OtherException': 'Exception', 'DuplicateTestIDError': 'Exception',
     'Empty': 'Exception', 'UnsupportedOperation': 'OSError', 'ImportError': 'Exception',
+    'NameError': 'Exception', 'UnexpectedSuccess': 'Exception', 'ZeroDivisionError': 'Exception',
 }
 
 
@@ -53,6 +54,8 @@ class Contract:
         self.ghost = d.get('ghost', {})          # name -> type   (ghost state G.<name>)
         self.self_fields = {k: parse_type(v) for k, v in d.get('self_fields', {}).items()}
         self.generator = d.get('generator', False)
+        self.ghost_exit = d.get('ghost_exit', {})      # ghost name -> spec expr, assigned at normal exit
+        self.expr_rules = d.get('expr_rules', {})      # exact source text of an expression -> rule
         self.decreases = d.get('decreases')
         self.props = d.get('props', {})          # clause text -> [property ids]; default from 'property'
         self.property = d.get('property', [])
@@ -67,6 +70,7 @@ class EngineBase:
         self.modules = {}
         self.contracts = {}
         self.records = {}       # record class -> {field: type}
+        self.record_dynamic = {}  # record class -> names of dynamically created attributes (presence bits)
         self.global_rules = {}  # pattern -> rule
         self.specfuncs = {}     # name -> callable(engine, st, *vals) -> Val
         self.globals = {}       # 'module.name' or 'name' -> python constant / Val factory
@@ -81,10 +85,15 @@ class EngineBase:
         self.stats = {'paths': 0, 'pruned': 0, 'safety_checks': 0}
         self.objattrs = {}      # (sort, attr) -> type string | callable(engine, st, obj) -> Val
         self.added_axioms = set()
+        self.known_modules = {'sys', 'os', 're', 'gc', 'time', 'unittest', 'zope', 'threading', 'subprocess', 'errno',
+                              'traceback', 'io', 'math', 'random', 'queue', 'warnings', 'threadsupport'}
+        self.iter_sorts = {}      # sort -> callable(engine, st, obj) -> list VRef (iteration sequence)
         self.callable_sorts = {}  # sort -> callable(engine, st, fobj, args) -> Val
         self.entry_fid = None
         self.cur_loops = []
         self.lemma_obligations = []
+        self._defs = {}
+        self._lit_by_id = {}
         self.jobs = int(os.environ.get('PYVC_JOBS', '8'))
 
     # ------------------------------------------------------------------ source
@@ -97,6 +106,8 @@ class EngineBase:
 
     def find_def(self, qual):
         """'runner.TestResult.addError' -> (FunctionDef, module name, source segment)."""
+        if qual in self._defs:
+            return self._defs[qual]
         parts = qual.split('.')
         tree, src, _ = self.module(parts[0])
         node = tree
@@ -110,7 +121,8 @@ class EngineBase:
             node = found
         if not isinstance(node, ast.FunctionDef):
             raise ContractError("%s is not a function" % qual)
-        return node, parts[0], ast.get_source_segment(src, node)
+        self._defs[qual] = (node, parts[0], ast.get_source_segment(src, node))
+        return self._defs[qual]
 
     def add_contract(self, key, d):
         self.contracts[key] = Contract(key, d)
@@ -120,6 +132,7 @@ class EngineBase:
             self.strlits[s] = z3.Const('str!%s!%s' % (hashlib.md5(repr(s).encode()).hexdigest()[:6],
                                                      ''.join(c if c.isalnum() else '_' for c in s)[:12]),
                                        usort('Str'))
+            self._lit_by_id[self.strlits[s].get_id()] = s
         return VObj('Str', self.strlits[s])
 
     def all_axioms(self):
@@ -293,6 +306,10 @@ class EngineBase:
                 return v
             if isinstance(h, HDict):
                 return self.dict_keys_list(h, st)
+        if isinstance(v, VObj) and v.sort in self.iter_sorts:
+            return self.iter_sorts[v.sort](self, st, v)
+        if isinstance(v, VOpt):
+            return self.iter_to_list(v.inner, st)
         raise Unsupported("iteration over %r" % (v,))
 
     def dict_keys_list(self, h, st):
